@@ -14,7 +14,9 @@ Driver for C16.  Case kinds (items separated by ` ; `, the first item is the hea
   HTTP backend against a scripted server; a batch script is a word over `2 4 5 9 H S` (status 204,
   400, 503, 429, hijack-and-close, slow 204), the last letter repeats.  Output `cb=<n> err=<n|e|*>`.
 * `sock <graphite|statsd-tcp|statsd-udp> <up|downup|down-cancel|down-shutdown|precancel|big>` (`big`: one flush
-  that renders to about 1500 relay datagrams, more than the relay's channel of packet buffers holds).
+  that renders to about 1500 relay datagrams, more than the relay's channel of packet buffers holds; `edge-down-cancel`:
+  nothing listens, the flush renders to exactly one datagram more than that channel holds and is cancelled while the last
+  one is being handed over).
 * `fl <aggregators> <backends> ; a.b ; …` — order in which the fake backends invoke the callbacks of
   the real `MetricFlusher`.  Output `early=<0|1> ret=<0|1>`.
 -/
@@ -219,14 +221,14 @@ def beSpec (c : BeCase) (impl : String) : String :=
 def sockModel (scenario : String) : String :=
   match scenario with
   | "up" | "downup" | "big" => "cb=1 err=n"
-  | "down-cancel" | "down-shutdown" => "cb=1 err=e"
+  | "down-cancel" | "down-shutdown" | "edge-down-cancel" => "cb=1 err=e"
   | "precancel" => "cb=1 err=*"
   | _ => "BAD_CASE"
 
 def sockSpec (scenario impl : String) : String :=
   if impl.startsWith "PANIC" then "FAIL panic " ++ impl
   else if impl.startsWith "HANG" then "FAIL missing-callback no callback within the deadline"
-  else cbSpec (impl.replace "err=*" "err=e") (scenario = "down-cancel" || scenario = "down-shutdown")
+  else cbSpec (impl.replace "err=*" "err=e") (scenario = "down-cancel" || scenario = "down-shutdown" || scenario = "edge-down-cancel")
 
 /-! ### flusher -/
 
